@@ -21,6 +21,7 @@ from typing import Dict, List, Tuple
 from harness.extract.util import class_def, find_method, parse
 
 GEN_NAME = "AgentsCtl"
+EXTRA_GEN = {"AgentsGet": "emit_get"}      # get_action of PeriodicAgent / ProbabilisticAgent, the probability vector
 SA = "game/agent/scripted_agents/"
 
 
@@ -239,8 +240,6 @@ def emit() -> str:
     m = find_method(class_def(t3, "TAP003"), "_progress_kill_chain")
     out.append(_fn("tap3ProgressKillChain", common, "Ctl", Tr(ins, prog, {}, False).stmts(m.body, 1), "`TAP003._progress_kill_chain`"))
     out.append(_resp_sites(t3))
-    out.append(_scan_sites())
-    out.append(_get_actions())
     out.append("end Primaite.Gen.AgentsCtl\n")
     return "\n".join(out)
 
@@ -618,24 +617,43 @@ class TrPer:
         raise Unsupported("statement " + ast.unparse(st)[:100])
 
 
-def _get_actions() -> str:
-    t_rand, t_prob = parse(SA + "random_agent.py"), parse(SA + "probabilistic_agent.py")
-    pa = class_def(t_rand, "PeriodicAgent")
+def _periodic_part() -> str:
+    pa = class_def(parse(SA + "random_agent.py"), "PeriodicAgent")
     sn = find_method(pa, "_set_next_execution_timestep")
     if [a.arg for a in sn.args.args] != ["self", "timestep", "variance"]:
         raise Unsupported("_set_next_execution_timestep: parameters " + str([a.arg for a in sn.args.args]))
     ga = find_method(pa, "get_action")
     if [a.arg for a in ga.args.args] != ["self", "obs", "timestep"]:
         raise Unsupported("PeriodicAgent.get_action: parameters " + str([a.arg for a in ga.args.args]))
-    out = [GET_PRELUDE]
-    out.append("/-- `PeriodicAgent._set_next_execution_timestep(timestep, variance)`; `d` = what `random.randint` returns -/\n"
-               "def periodicSetNext (timestep variance : Int) (d : Int) (s : Per) : Per :=\n"
-               + TrPer(["timestep", "variance"], False).stmts(sn.body, 1) + "\n")
-    out.append("/-- `PeriodicAgent.get_action(obs, timestep)`: new attributes, the action name, and key ↦ source expression of its "
-               "parameters; `d` = the schedule draw -/\n"
-               "def periodicGetAction (maxExec frequency variance : Int) (timestep : Int) (d : Int) (s : Per) : "
-               "Per × String × List (String × String) :=\n" + TrPer(["timestep"], True).stmts(ga.body, 1) + "\n")
-    pr = class_def(t_prob, "ProbabilisticAgent")
+    return ("/-- `PeriodicAgent._set_next_execution_timestep(timestep, variance)`; `d` = what `random.randint` returns -/\n"
+            "def periodicSetNext (timestep variance : Int) (d : Int) (s : Per) : Per :=\n"
+            + TrPer(["timestep", "variance"], False).stmts(sn.body, 1) + "\n\n"
+            "/-- `PeriodicAgent.get_action(obs, timestep)`: new attributes, the action name, and key ↦ source expression of its "
+            "parameters; `d` = the schedule draw -/\n"
+            "def periodicGetAction (maxExec frequency variance : Int) (timestep : Int) (d : Int) (s : Per) : "
+            "Per × String × List (String × String) :=\n" + TrPer(["timestep"], True).stmts(ga.body, 1) + "\n")
+
+
+PERIODIC_FALLBACK = """def periodicSetNext (timestep variance : Int) (d : Int) (s : Per) : Per := { s with raised := true }
+def periodicGetAction (maxExec frequency variance : Int) (timestep : Int) (d : Int) (s : Per) : Per × String × List (String × String) :=
+  ({ s with raised := true }, "untranslated", [])
+"""
+PROB_FALLBACK = """def probabilities (tb : Dict) : Option (List Nat) := none
+def probGetAction (rngChoice : Nat → List Nat → Option Nat) (nActions : Nat) (tb : Dict) : Option Nat := none
+"""
+
+
+SCAN_FALLBACK = """def nmapScanSites : List (String × String × String × String) := []
+def fromBoolData : List String := []
+def tap1ScanUses : List String := []
+def tap1ScanGuards : List String := []
+def tap1OtherDataReaders : List String := []
+"""
+
+
+def _prob_part() -> str:
+    pr = class_def(parse(SA + "probabilistic_agent.py"), "ProbabilisticAgent")
+    out = []
     out.append("/-- `ProbabilisticAgent.probabilities` (the vector handed to numpy); `none` = KeyError -/\n"
                "def probabilities (tb : Dict) : Option (List Nat) :=\n" + TrVec().body(find_method(pr, "probabilities").body, 1) + "\n")
     # get_action: `choice = self.rng.choice(len(self.action_manager.action_map), p=self.probabilities)`; logger; `return self.action_manager.get_action(choice)`
@@ -656,6 +674,26 @@ def _get_actions() -> str:
                "def probGetAction (rngChoice : Nat → List Nat → Option Nat) (nActions : Nat) (tb : Dict) : Option Nat :=\n"
                "  match probabilities tb with\n  | none => none\n  | some v_p =>\n"
                f"    match rngChoice nActions v_p with\n    | none => none\n    | some v_{var} => some v_{var}\n")
+    return "\n".join(out)
+
+
+def emit_get() -> str:
+    """Gen/AgentsGet.lean.  The C19 driver evaluates these functions (counter-model search), so this file ALWAYS defines them:
+    a method the translator cannot handle gets a placeholder and its reason is listed in `untranslated`
+    (obligations `extract:AgentsGet:<part>` and theorem `C19_gen_get_translated`)."""
+    out = ["set_option linter.unusedVariables false", "namespace Primaite.Gen.AgentsGet", GET_PRELUDE]
+    missing = []
+    for part, fn, fallback in (("periodic", _periodic_part, PERIODIC_FALLBACK), ("probabilistic", _prob_part, PROB_FALLBACK),
+                               ("scanSites", _scan_sites, SCAN_FALLBACK)):
+        try:
+            out.append(fn())
+        except (Unsupported, ValueError) as e:
+            missing.append((part, f"{type(e).__name__}: {e}"))
+            out.append(fallback)
+    q = lambda x: '"' + str(x).replace('"', "'").replace("\\", "/").replace("\n", " ") + '"'  # noqa: E731
+    out.append("/-- parts the translator refused, with the reason (empty = everything above is a translation) -/\n"
+               f"def untranslated : List (String × String) := [{', '.join(f'({q(a)}, {q(b)})' for a, b in missing)}]\n")
+    out.append("end Primaite.Gen.AgentsGet\n")
     return "\n".join(out)
 
 
